@@ -17,7 +17,7 @@ RULE = (
     "FULL ENUMERATION: files of 1-8 elements x every fault position k (and no fault) x {read, write} x file "
     "families {register, block, section} x {fresh path, path that already holds a longer earlier output, caller buffer (in-memory and a real file object opened by the caller) / content} x storage {text, binary} x exception "
     "types {ValueError, KeyError, TypeError, custom Exception subclasses incl. one derived from StopIteration, one from TypeError and one with a "
-    "non-trivial constructor}, plus nineteen further builtin classes (NotImplementedError and a subclass, OSError, EOFError, AttributeError, ...) on a thinner grid of positions. The k-th element's read/write raises a specific "
+    "non-trivial constructor}, plus nineteen further builtin classes (NotImplementedError and a subclass, OSError, EOFError, AttributeError, ...) on a thinner grid of positions; on writes also elements that keep what they hold in a slot of their own (the inherited data slot stays None). The k-th element's read/write raises a specific "
     "exception instance. Observed with a harness-side wrapper around builtins.open (and around the StringIO/BytesIO "
     "the reading adapter creates): the exception object reaching the caller (identity), the closed flag of every "
     "handle the framework opened, the caller buffer's closed flag / tell() / contents, the file contents on disk "
